@@ -17,6 +17,11 @@ mechanisms of Model/Html.lean and Model/Nav.lean (C19):
   over the chapters' parse trees;
 * the HTML branches of `tabula.(*Extractor).Text / ToMarkdown / Document`.
 
+* the depth limit of `OpenReader` (fix a65974f / 616a480): `treeDeeperThan(doc, maxTreeDepth)`
+  with `maxTreeDepth = 10000`, measured in edges from the document node, text nodes
+  counted; beyond it `OpenReader` returns an error (`openReaderE … = none`), and the EPUB
+  chapter loops, which `continue` on that error, leave the chapter out.
+
 Core Lean only.  The parser (x/net/html) stays a parameter: every function takes
 the tree it produced.
 -/
@@ -46,6 +51,49 @@ def bodyOf (doc : Dom) : Dom :=
   match findBody doc with
   | some b => b
   | none => doc
+
+/-! ### the depth limit of OpenReader -/
+
+mutual
+/-- number of edges on the longest path from a node down to a leaf (any node type counts:
+`treeDeeperThan` follows `FirstChild`/`NextSibling` of every node) -/
+def depth : Dom → Nat
+  | .elem _ _ kids => depthL kids
+  | .other kids => depthL kids
+  | .text _ => 0
+/-- 0 for a node without children, else 1 + the deepest child -/
+def depthL : List Dom → Nat
+  | [] => 0
+  | k :: ks => max (depth k + 1) (depthL ks)
+end
+
+mutual
+/-- the walk of `treeDeeperThan(root, limit)` below a node that sits `d` edges under the root:
+stepping down to a first child does `depth++; if depth > limit { return true }`; siblings are
+visited at the same depth (the Go loop is iterative, with parent pointers; here the depth
+counter is the parameter) -/
+def deeper (limit : Nat) (d : Nat) : Dom → Bool
+  | .elem _ _ kids => deeperL limit d kids
+  | .other kids => deeperL limit d kids
+  | .text _ => false
+/-- the children of a node at depth `d` -/
+def deeperL (limit : Nat) (d : Nat) : List Dom → Bool
+  | [] => false
+  | k :: ks => decide (d + 1 > limit) || deeper limit (d + 1) k || deeperL limit d ks
+end
+
+/-- `const maxTreeDepth = 10000` (htmldoc/reader.go) -/
+def maxTreeDepth : Nat := 10000
+
+/-- `treeDeeperThan(root, limit)` for `limit ≥ 0` -/
+def treeDeeperThan (root : Dom) (limit : Nat) : Bool := deeper limit 0 root
+
+/-- what `OpenReader` does with a value computed from the parsed tree: an error
+(`"parsing HTML: elements nested deeper than 10000 levels"`) when the tree is deeper than
+`maxTreeDepth`, the value otherwise (`macro_inline`: like the code, the compiled model computes
+nothing from a tree it refuses) -/
+@[macro_inline] def guarded {α : Type} (doc : Dom) (x : α) : Option α :=
+  if treeDeeperThan doc maxTreeDepth then none else some x
 
 /-! ### the mode as a raw integer -/
 
@@ -79,8 +127,12 @@ structure ReaderI where
   elements : List Element
   cache : List (Int × List Element) := []
 
-/-- `OpenReader` after `html.Parse` -/
+/-- the reader `OpenReader` builds once the tree has passed the depth check -/
 def openReader (doc : Dom) : ReaderI := { doc := doc, elements := extractI 0 doc }
+
+/-- `OpenReader` after `html.Parse`: the depth check comes first, nothing is walked by recursion
+before it; `none` is the error -/
+def openReaderE (doc : Dom) : Option ReaderI := guarded doc (openReader doc)
 
 def lookupI : List (Int × List Element) → Int → Option (List Element)
   | [], _ => none
@@ -217,14 +269,29 @@ def runCalls : ReaderI → List Call → List Out
 /-- the same call on a reader opened for it alone -/
 def fresh (doc : Dom) (c : Call) : Out := (call (openReader doc) c).1
 
-/-- `OpenReader(doc).TextWithOptions{m}` as a string -/
+/-- `OpenReader(doc)` followed by a call sequence on the reader; `none`: OpenReader returned an error -/
+def runCallsE (doc : Dom) (cs : List Call) : Option (List Out) := (openReaderE doc).map fun r => runCalls r cs
+
+/-- `OpenReader(doc)` followed by one call -/
+def freshE (doc : Dom) (c : Call) : Option Out := (openReaderE doc).map fun r => (call r c).1
+
+/-- the text view of the reader `OpenReader` returned for `doc` (see `openText` for the whole call) -/
 def textWithOptions (m : Int) (doc : Dom) : Str := renderText (extractI m doc) []
 
-/-- `OpenReader(doc).MarkdownWithOptions{m}` -/
+/-- the Markdown view of the reader `OpenReader` returned for `doc` -/
 def markdownWithOptions (m : Int) (doc : Dom) : Str := renderMd id (extractI m doc) []
 
-/-- `OpenReader(doc).DocumentWithOptions{m}` (page elements) -/
+/-- the Document view (page elements) of the reader `OpenReader` returned for `doc` -/
 def documentWithOptions (m : Int) (doc : Dom) : List DocEl := docElements (extractI m doc)
+
+/-- `OpenReader(doc)` then `TextWithOptions{m}`: `none` = the error of OpenReader -/
+def openText (m : Int) (doc : Dom) : Option Str := guarded doc (textWithOptions m doc)
+
+/-- `OpenReader(doc)` then `MarkdownWithOptions{m}` -/
+def openMarkdown (m : Int) (doc : Dom) : Option Str := guarded doc (markdownWithOptions m doc)
+
+/-- `OpenReader(doc)` then `DocumentWithOptions{m}` -/
+def openDocument (m : Int) (doc : Dom) : Option (List DocEl) := guarded doc (documentWithOptions m doc)
 
 /-! ### tabula.Extractor (HTML branch) -/
 
@@ -239,6 +306,12 @@ def extractorMarkdown (doc : Dom) : Str := renderMd adjustDefault (extractI 0 do
 /-- `….Document()`: `htmlReader.Document()`, i.e. the default options (Standard) -/
 def extractorDocument (doc : Dom) : List DocEl := documentWithOptions defaultMode doc
 
+/-- the three Extractor calls from the bytes: each opens the document with `htmldoc.OpenReader`
+(tabula.go, `htmlReader, err := htmldoc.OpenReader(r)`) and hands its error on -/
+def extractorTextE (doc : Dom) : Option Str := guarded doc (extractorText doc)
+def extractorMarkdownE (doc : Dom) : Option Str := guarded doc (extractorMarkdown doc)
+def extractorDocumentE (doc : Dom) : Option (List DocEl) := guarded doc (extractorDocument doc)
+
 /-! ### EPUB -/
 
 /-- `strings.Join(parts, sep)` -/
@@ -248,9 +321,14 @@ def joinWith (sepr : Str) : List Str → Str
   | x :: y :: rest => x ++ sepr ++ joinWith sepr (y :: rest)
 
 /-- the chapter loop of `epubdoc.(*Reader).TextWithOptions` / `MarkdownWithOptions`: every chapter is
-opened by a reader of its own, its view is trimmed, empty chapters are left out -/
+opened by a reader of its own (`htmldoc.OpenReader`; `if err != nil { continue }`: a chapter nested
+deeper than `maxTreeDepth` is left out without an error), its view is trimmed, empty chapters are
+left out -/
 def epubParts (view : Dom → Str) (chapters : List Dom) : List Str :=
-  chapters.filterMap fun doc => let t := trim (view doc); if t = [] then none else some t
+  chapters.filterMap fun doc =>
+    match guarded doc (view doc) with
+    | none => none
+    | some v => let t := trim v; if t = [] then none else some t
 
 /-- `epubdoc.(*Reader).TextWithOptions{NavigationExclusion: m}` (m is an `int` there) -/
 def epubText (m : Int) (chapters : List Dom) : Str :=
